@@ -105,7 +105,7 @@ pub fn try_open_main(args: &Args) -> i32 {
     let Some(path) = args.pos.first() else {
         return 2;
     };
-    match Database::builder(path).worker_threads_unchecked(1).open() {
+    match Database::builder(path).worker_threads_unchecked(1).temporary(args.flag("temporary")).open() {
         Ok(db) => {
             println!("RESULT ok keyspaces={}", db.keyspace_count());
             0
@@ -118,10 +118,19 @@ pub fn try_open_main(args: &Args) -> i32 {
 }
 
 fn child_open(path: &Path) -> String {
+    child_open2(path, false)
+}
+
+/// `temporary`: the opener asks for a temporary database (directory removed when the instance is dropped) - only
+/// for opens that have to be refused, where the option must not matter
+fn child_open2(path: &Path, temporary: bool) -> String {
     let exe = std::env::current_exe().expect("exe");
-    let out = std::process::Command::new(exe)
-        .arg("try-open")
-        .arg(path)
+    let mut cmd = std::process::Command::new(exe);
+    cmd.arg("try-open").arg(path);
+    if temporary {
+        cmd.arg("--temporary");
+    }
+    let out = cmd
         .env_remove("LD_PRELOAD")
         .output();
     match out {
@@ -197,15 +206,19 @@ fn second_open_must_be_refused(path: &Path, rng: &mut Rng, stats: &mut Counts, w
         let Some(before) = stable_files(path) else {
             return Err(Deviation::new("inconclusive:not-idle", "directory did not become stable before the probe"));
         };
+        let temporary = rng.chance(1, 3);
+        if temporary {
+            stats.inc("second_open.as_temporary");
+        }
         let res = if rng.chance(1, 2) {
             stats.inc("second_open.in_process");
-            match Database::builder(path).worker_threads_unchecked(1).open() {
+            match Database::builder(path).worker_threads_unchecked(1).temporary(temporary).open() {
                 Ok(_) => "ok".to_string(),
                 Err(e) => classify_open_err(&e),
             }
         } else {
             stats.inc("second_open.child_process");
-            child_open(path)
+            child_open2(path, temporary)
         };
         if res != "locked" {
             return Err(Deviation::new(
@@ -689,13 +702,17 @@ fn marker_case(dir: &Path, rng: &mut Rng, stats: &mut Counts) -> R<String> {
     let compatible = content.as_ref().is_some_and(|c| c.len() >= 4 && &c[..4] == b"FJL\x03");
     let before = dir_digest(dir);
     let before_list = dir_listing(dir);
+    let temporary = !compatible && rng.chance(1, 3);
+    if temporary {
+        stats.inc("marker.opened_as_temporary");
+    }
     let res = if rng.chance(1, 2) {
-        match Database::builder(dir).worker_threads_unchecked(1).open() {
+        match Database::builder(dir).worker_threads_unchecked(1).temporary(temporary).open() {
             Ok(_) => "ok".to_string(),
             Err(e) => classify_open_err(&e),
         }
     } else {
-        child_open(dir)
+        child_open2(dir, temporary)
     };
     stats.inc(&format!("marker.{name}"));
     stats.inc(&format!("marker_state.{state}"));
